@@ -485,8 +485,12 @@ func c08StaticLeader(c *Ctx) {
 		return
 	}
 	byName := ""
+	scope := map[*ast.FuncDecl]bool{}
+	for _, h := range withHelpers(bp, fd, "FindCyclesInSCC", "StronglyConnectedComponents", "reduceGraph") {
+		scope[h] = true
+	}
 	for _, s := range mapRanges(g, []string{"builder"}, nil) {
-		if s.Outer != fd {
+		if !scope[s.Outer] {
 			continue
 		}
 		if class, _ := classifyRange(s.Pkg, s); class == "minimum-by-key" {
